@@ -315,9 +315,14 @@ class Run:
 
 
 def load_known_findings(prop):
-    p = os.path.join(VERIF, 'known_findings.jsonl')
+    """Committed known findings: /verif/known_findings.jsonl and /verif/known_findings.d/*.jsonl
+    (one JSON object per line: property, status finding|fixed, signature, what, ...). Never written at run time."""
+    import glob
     out = []
-    if os.path.exists(p):
+    paths = [os.path.join(VERIF, 'known_findings.jsonl')] + sorted(glob.glob(os.path.join(VERIF, 'known_findings.d', '*.jsonl')))
+    for p in paths:
+        if not os.path.exists(p):
+            continue
         for line in open(p):
             line = line.strip()
             if line and not line.startswith('#'):
